@@ -12,7 +12,7 @@ Cases == JsonDeserialize(IOEnv.TRACE_FILE)
 VARIABLES k, v
 Min(S) == CHOOSE m \in S : \A o \in S : m <= o
 
-\* row: raw first last year month idx yidx ly lm li lfmt sy sm sd sclean ey em ed eclean ndays hashok
+\* row: raw first last year month idx yidx ly lm li lfmt sy sm sd sclean ey em ed eclean ndays hashok cmpok
 RowClause(w) ==
     LET r == w[1] IN
     IF ~InRange(r) THEN "RawRange"
@@ -24,6 +24,9 @@ RowClause(w) ==
     ELSE IF r # LastRaw /\ <<w[16], w[17], w[18], w[19]>> # <<Year(r), Month(r), EndDay(r), 1>> THEN "EndDate"
     ELSE IF r # LastRaw /\ w[20] # NDays(r) THEN "NDays"
     ELSE IF w[21] # 1 THEN "Hash"
+    \* w[22]: the dekad compares as equal to (<=, >=, not <, not >) the first, a middle and the LAST day of its own run,
+    \* given as date and as end-of-day datetime, and its neighbours compare strictly below / above those days
+    ELSE IF Len(w) >= 22 /\ w[22] # 1 THEN "OrderWithDates"
     ELSE "ok"
 
 Scan(c) ==
